@@ -108,6 +108,10 @@ def execute(cfg):
 def run(tier):
     run = Run("C10", tier, "model_checking")
     d = scratch("c10")
+    mres = tlc.run("LatticeModel.tla", "LatticeModel.cfg" if tier == "quick" else "LatticeModel_full.cfg", timeout=2400)
+    if mres.violated:
+        raise MachineryError("LatticeModel: theorem %s of the exact minimum-image definitions fails" % mres.violated)
+    run.add_model(mres, "LatticeModel: MicSymmetric, SafeKSuffices, BasisIndependent, MicBelowDirect, ShiftInvariant on 5 cells x 8 pbc x 4 basis changes x difference vectors")
     cfgs = exhaustive_pairs(tier) + configs(tier)
     recs = pmap(execute, cfgs, chunksize=32)
     keep, skipped = [], 0
